@@ -3,7 +3,7 @@ import random
 import vlib
 from props import exact_common as ec
 
-PIPES = {"hull": ec.pipe("hull"), "setorder": ec.pipe("setorder", "setorder")}
+PIPES = {"hull": ec.pipe("hull"), "setorder": ec.pipe("setorder", "setorder")}          # "hullx" is added below
 
 
 def seeded(seed, n):
@@ -32,8 +32,60 @@ def seeded(seed, n):
             pts += [[R, R]] * (cnt // 4)
         else:
             pts = [[r.randrange(grid), r.randrange(grid)] for _ in range(cnt)]
+        # anywhere in the plane, not only in the non-negative quadrant
+        ox, oy = r.choice([(0, 0), (-grid, -grid), (-2 * grid, 0), (r.randrange(-grid, 1), r.randrange(-2 * grid, 1))])
+        pts = [[x + ox, y + oy] for x, y in pts]
         out.append(dict(pts=pts[:200], l=r.choice(["XY", "XYZ", "XYM", "XYZM"])))
     return out
+
+
+def big_cases(seed, n, maxpts):
+    """Inputs on a grid of 2^20 around the origin (negative coordinates included): random clouds, points on a few lines
+    (many collinear triples on the hull), near-degenerate thin clouds, on both sides of the 50-point reduction."""
+    r = random.Random(seed * 7 + 3)
+    G = 1 << 20
+    out = []
+    while len(out) < n:
+        cnt = r.choice([3, 8, 20, 49, 51, 60, maxpts])
+        cnt = min(cnt, maxpts)
+        mode = r.choice(["cloud", "lines", "thin", "dups"])
+        if mode == "cloud":
+            pts = [[r.randrange(-G, G), r.randrange(-G, G)] for _ in range(cnt)]
+        elif mode == "lines":
+            a, b = [r.randrange(-G // 2, G // 2), r.randrange(-G // 2, G // 2)], [r.randrange(-999, 999), r.randrange(-999, 999)]
+            c = [r.randrange(-999, 999), r.randrange(-999, 999)]
+            pts = []
+            for _ in range(cnt):
+                t = r.randrange(-400, 400)
+                d = r.choice([b, c])
+                pts.append([a[0] + t * d[0], a[1] + t * d[1]])
+        elif mode == "thin":
+            dx, dy = r.randrange(1, 999), r.randrange(-999, 999)
+            pts = [[t * dx + r.randrange(-1, 2), t * dy + r.randrange(-1, 2)] for t in (r.randrange(-1000, 1000) for _ in range(cnt))]
+        else:
+            base = [[r.randrange(-G, G), r.randrange(-G, G)] for _ in range(max(3, cnt // 4))]
+            pts = [r.choice(base)[:] for _ in range(cnt)]
+        out.append(dict(pts=pts, l=r.choice(["XY", "XYZ", "XYZM"]), fam=mode))
+    return out
+
+
+def big_pipe(ctx, verdict, cases, name="hullx"):
+    """Large-grid tier: Apalache decides ExactGeom!IsHullOf (exact integers) on what both entry points returned."""
+    obs = list(vlib.run_driver(ctx, "hull", cases, for_tlc=False))
+    exprs, sigs = [], []
+    for c, o in zip(cases, obs):
+        P = "<<" + ", ".join(ec.tla_pt(p) for p in o["pts"]) + ">>"
+        conj = []
+        for via in ("flat", "geom"):
+            h = o[via]
+            if h["kind"] == "panic" or not h["inputsame"] or not h["hint"] or h["hl"] != c["l"] or (h["kind"] == "Polygon" and h["rings"] != 1):
+                conj.append("FALSE")
+                continue
+            H = "<<" + ", ".join(ec.tla_pt(p) for p in h["h"]) + ">>"
+            conj.append('IsHullOf("%s", %s, %s)' % (h["kind"], H, P))
+        exprs.append(" /\\ ".join(conj))
+        sigs.append("hull|big|" + c["fam"] + ("|>50" if len(c["pts"]) > 50 else ""))
+    return ec.apalache_obs(ctx, verdict, "HullX", exprs, cases, sigs, name, per_module=2 if ctx.quick else 4, timeout=1700)
 
 
 def run(ctx, verdict):
@@ -44,5 +96,12 @@ def run(ctx, verdict):
     cases = seeded(ctx.seed, 300 if ctx.quick else 4000)
     vlib.note_cases(ctx, cases, nontrivial=lambda c: len({tuple(p) for p in c["pts"]}) >= 3)
     ec.pipe("hull")(ctx, verdict, cases)
+    big = big_cases(ctx.seed, 6 if ctx.quick else 120, 30 if ctx.quick else 120)
+    vlib.note_cases(ctx, big)
+    big_pipe(ctx, verdict, big)
+    ctx.coverage_extra["big_tier"] = dict(cases=len(big), grid=1 << 20, checker="Apalache on ExactGeom!IsHullOf (exact integers)")
     ctx.coverage_extra["seeded"] = dict(cases=len(cases), sizes="1..200 points (both sides of the 50-point reduction)",
                                         grids=[3, 4, 6, 16, 100, 8000])
+
+
+PIPES["hullx"] = big_pipe
